@@ -1547,7 +1547,20 @@ impl AnnotationStore {
         }
 
         if textual_order {
-            tmp.sort_unstable_by(|a, b| match (a, b) {
+            // a total order: text-bearing selectors first in textual order, then the other kinds,
+            // each kind ordered by its handles
+            let rank = |selector: &Selector| -> u8 {
+                match selector {
+                    Selector::TextSelector(..) | Selector::AnnotationSelector(_, Some(_)) => 0,
+                    Selector::ResourceSelector(..) => 1,
+                    Selector::DataSetSelector(..) => 2,
+                    Selector::AnnotationSelector(_, None) => 3,
+                    Selector::DataKeySelector(..) => 4,
+                    Selector::AnnotationDataSelector(..) => 5,
+                    _ => 6,
+                }
+            };
+            tmp.sort_by(|a, b| match (a, b) {
                 (Selector::TextSelector(res, tsel, _), Selector::TextSelector(res2, tsel2, _))
                 | (
                     Selector::AnnotationSelector(_, Some((res, tsel, _))),
@@ -1577,29 +1590,20 @@ impl AnnotationStore {
                     Selector::AnnotationSelector(annotation, None),
                     Selector::AnnotationSelector(annotation2, None),
                 ) => annotation.cmp(annotation2),
-                (
-                    Selector::AnnotationSelector(_, None),
-                    Selector::AnnotationSelector(_, Some(_)),
-                ) => Ordering::Greater,
-                (
-                    Selector::AnnotationSelector(_, Some(_)),
-                    Selector::AnnotationSelector(_, None),
-                ) => Ordering::Less,
                 (Selector::ResourceSelector(res), Selector::ResourceSelector(res2)) => {
                     res.cmp(res2)
                 }
                 (Selector::DataSetSelector(dataset), Selector::DataSetSelector(dataset2)) => {
                     dataset.cmp(dataset2)
                 }
-                //some canonical ordering for selectors
-                (Selector::TextSelector(..), _) => Ordering::Less,
-                (_, Selector::TextSelector(..)) => Ordering::Greater,
-                (Selector::ResourceSelector(..), _) => Ordering::Less,
-                (_, Selector::ResourceSelector(..)) => Ordering::Greater,
-                (Selector::DataSetSelector(..), _) => Ordering::Less,
-                (_, Selector::DataSetSelector(..)) => Ordering::Greater,
-                // catch-all for anything that shouldn't occur at this point anyway:
-                (a, b) => panic!("Unable to compare order for selector {:?} vs {:?}", a, b),
+                (Selector::DataKeySelector(set, key), Selector::DataKeySelector(set2, key2)) => {
+                    (set, key).cmp(&(set2, key2))
+                }
+                (
+                    Selector::AnnotationDataSelector(set, data),
+                    Selector::AnnotationDataSelector(set2, data2),
+                ) => (set, data).cmp(&(set2, data2)),
+                (a, b) => rank(a).cmp(&rank(b)),
             });
         }
 
